@@ -244,11 +244,11 @@ Proof.
     + destruct (Ho ov eq_refl) as [E|[_ [Ek [E Es]]]]; rewrite E; cbn [map hval_str option_eqb].
       * rewrite str_eqb_refl. reflexivity.
       * subst k s. rewrite !str_eqb_refl. cbn [N.eqb Pos.eqb andb]. apply orb_true_r.
-    + rewrite (Hn eq_refl). cbn [map hval_str option_eqb]. rewrite str_eqb_refl. reflexivity.
+    + rewrite (Hn eq_refl). cbn [map hval_str option_eqb]. rewrite str_eqb_refl, (three_protective k tv Hk Ht). reflexivity.
   - (* hsts *)
     unfold hsts_ok. destruct (c_secure cfg) eqn:Es; [|reflexivity]. cbn [negb orb].
-    rewrite hget_proj. change hsts_key with hsts_k. rewrite (PH eq_refl). cbn [map hval_str list_eqb].
-    fold H. rewrite str_eqb_refl. reflexivity.
+    rewrite hget_proj. change hsts_key with hsts_k. rewrite (PH eq_refl). cbn [map hval_str].
+    fold H. rewrite str_eqb_refl, hsts_protective. reflexivity.
   - (* redirect *)
     unfold redirect_ok, forwarded_call. destruct (c_secure cfg && needs_redirect q) eqn:Er; [|reflexivity].
     cbn [negb orb andb]. cbn [negb orb] in Gr. rewrite Gr. cbn [negb orb].
@@ -261,4 +261,28 @@ Proof.
     pose proof (hall_hget (cookie_good cfg (q_host q)) k_set_cookie h PC) as F.
     rewrite Forall_forall in F. specialize (F v Hv). destruct v as [x|c]; [reflexivity|].
     apply cookie_good_ok. exact F.
+Qed.
+
+(* ---- sso-auth ---- *)
+Lemma holds_auth_intro (h : hdr hval) :
+  (forall k v, tbl_lookup k AT = Some v -> hget k h = [VStr v]) -> holds_auth (proj_hdr h) = true.
+Proof.
+  intros Hh. pose proof auth_table_protective_true as P. unfold auth_table_protective in P.
+  apply andb_true_iff in P as [P _]. apply andb_true_iff in P as [P1 P2].
+  unfold holds_auth. apply andb_true_iff. split; apply forallb_forall.
+  - intros kv Hin. rewrite forallb_forall in P1. specialize (P1 kv Hin). fold AT in *.
+    destruct (tbl_lookup (canon (fst kv)) AT) as [v|] eqn:E; [|discriminate]. cbn [option_eqb] in P1.
+    apply str_eqb_eq in P1. subst v. rewrite hget_proj, (Hh _ _ E). cbn [map hval_str list_eqb].
+    rewrite str_eqb_refl. reflexivity.
+  - intros k Hin. rewrite forallb_forall in P2. specialize (P2 k Hin). fold AT in *.
+    destruct (tbl_lookup k AT) as [v|] eqn:E; [|discriminate]. rewrite hget_proj, (Hh _ _ E). exact P2.
+Qed.
+
+Theorem auth_monitor_accepts_model fired ops :
+  forallb aop_ok ops = true ->
+  holds_auth (proj_hdr (auth_handle AT ops)) = true /\ holds_auth (proj_hdr (auth_process AT fired ops)) = true.
+Proof.
+  intros Hops. split; apply holds_auth_intro; intros k v Hk.
+  - apply auth_headers_gen; assumption.
+  - apply auth_process_headers; assumption.
 Qed.
